@@ -25,7 +25,9 @@ R = Registry(
         "the entry is removed under the key it was registered with (discard < key store < re-registration; a key is only "
         "removed after the state left the map); an identity token travels with the primary key (forwarded by every function "
         "that accepts one, components [1] and [2] of one key passed together, compared with None only); only states attached "
-        "to the session are registered in its identity map."
+        "to the session are registered in its identity map; a state's identity_token is the token of its key: the key re-computed from "
+        "a state ends in state.identity_token, and wherever orm/ (InstanceState's own pickling included) stores a key that is not re-computed "
+        "from the state's own token, every path through the store also sets state.identity_token from that key."
     ),
     not_decided="object identity across arbitrary histories (values of primary keys, merges of unrelated keys); identity tokens of "
                 "secondary loads on a plain Session (selectin polymorphic / selectinload / lazy loads run without the parent's token).",
@@ -302,7 +304,9 @@ def r5(ctx):
         tn = [n.id for n in g.nodes if n.kind == "test" and n.stmt.test is t]
         opp = [b for n in tn for b, lab in g.succ[n] if lab == ("false" if pol else "true")]
         if set(load) & g.reachable(opp):
-            other.append(unparse(t))
+            extra = sorted((a if p else f"not ({a})") for a, p in atoms - want)
+            found |= atoms & want
+            other.append(" and ".join(extra) if atoms & want and extra else unparse(t))  # name the added reason, not the whole test
     inner_ok = found == want
     ctx.check(inner_ok and not other, f"{f.key}:lookup-skipped-only-for-documented-reasons",
               f"the identity map is bypassed for other reasons than populate_existing / always_refresh / with_for_update (extra conditions: {other}; documented test found: {inner_ok})",
@@ -1013,18 +1017,23 @@ KEY_OF_SAME_STATE = {
 
 
 def _recompute_functions(ctx) -> Dict[str, object]:
-    """{function name: FuncInfo} of orm/mapper.py functions that return a 3-tuple whose last element is `<parameter>.identity_token`
-    (the identity key re-computed from the state itself)."""
+    """{function name: (FuncInfo, positional index of the state parameter, token component is `<that parameter>.identity_token`)}
+    for the functions of orm/mapper.py that build an identity key `(self._identity_class, <read off parameter p>, <token>)` from an
+    object handed to them instead of from an identity_token parameter: the key RE-COMPUTED from a state."""
     out = {}
     m = ctx.index.module("orm/mapper.py")
     for f in ctx.index.all_functions(m):
-        if f.type_only or f.is_overload:
+        if f.type_only or f.is_overload or TOKEN in f.params:
             continue
         for n in walk_local(f.node):
-            if isinstance(n, ast.Return) and isinstance(n.value, ast.Tuple) and len(n.value.elts) == 3:
+            if isinstance(n, ast.Return) and isinstance(n.value, ast.Tuple) and len(n.value.elts) == 3 and (dotted(n.value.elts[0]) or "").endswith("._identity_class"):
+                src = [x.id for x in ast.walk(n.value.elts[1]) if isinstance(x, ast.Name) and x.id in f.params and x.id not in ("self", "cls")]
+                if not src:
+                    continue
                 last = n.value.elts[2]
-                if isinstance(last, ast.Attribute) and last.attr == TOKEN and isinstance(last.value, ast.Name) and last.value.id in f.params:
-                    out[f.name] = (f, f.params.index(last.value.id) - (1 if f.params and f.params[0] in ("self", "cls") else 0))
+                good = isinstance(last, ast.Attribute) and last.attr == TOKEN and isinstance(last.value, ast.Name) and last.value.id in src
+                p_ = last.value.id if good else src[0]
+                out[f.name] = (f, f.params.index(p_) - (1 if f.params and f.params[0] in ("self", "cls") else 0), good, unparse(last))
     return out
 
 
@@ -1161,10 +1170,16 @@ def _entry_of(e, params) -> Tuple[str, str]:
     return "", ""
 
 
-def _key_falsy_edges(g, fn, var: str, after=()):
-    """edge_ok: non-exceptional edges minus the branch outcomes on which `var.key` is known to be None / falsy.  A local bound to
-    `var.key` counts as the key when it is read off after the store(s) `after` (a snapshot taken before is the OLD key)."""
+def _key_falsy_edges(g, fn, var: str, after=(), stored=None):
+    """edge_ok: non-exceptional edges minus the branch outcomes on which `var.key` (or the value `stored` that was assigned to it)
+    is known to be None / falsy.  A local bound to `var.key` counts as the key when it is read off after the store(s) `after` (a
+    snapshot taken before is the OLD key)."""
     binds = dict(bool_binds(fn))
+    texts = {f"{var}.key"}
+    if stored is not None:
+        sb = {n: x for n, x in single_binds(fn).items() if n != var}
+        texts |= {unparse(stored), unparse(expand(stored, sb))}
+        texts |= {n for n, x in sb.items() if unparse(expand(x, sb)) in texts}
     for n, v in single_binds(fn).items():
         if isinstance(v, ast.Attribute) and v.attr == "key" and isinstance(v.value, ast.Name) and v.value.id == var and (after is None or after):
             sts = [st for nm, vv, st in name_stores(fn) if nm == n]
@@ -1176,7 +1191,7 @@ def _key_falsy_edges(g, fn, var: str, after=()):
             continue
         for lab, pol in (("true", True), ("false", False)):
             at = set(test_atoms(expand(t.stmt.test, binds), pol))
-            if (f"{var}.key", False) in at or (f"{var}.key is None", True) in at:
+            if any((x, False) in at or (f"{x} is None", True) in at for x in texts):
                 barred.add((t.id, lab))
     return lambda a, b, lab: lab != "exc" and (a, lab) not in barred
 
@@ -1202,7 +1217,7 @@ class _TokenRule:
         if isinstance(v, ast.Call):
             nm = _callee_name(v)
             if nm in self.recompute:
-                f, idx = self.recompute[nm]
+                f, idx = self.recompute[nm][:2]
                 a = v.args[idx] if idx < len(v.args) else kw(v, f.params[idx + (1 if f.params[0] in ("self", "cls") else 0)])
                 return isinstance(a, ast.Name) and a.id == var
         return False
@@ -1324,10 +1339,14 @@ class _TokenRule:
              "that __getstate__ writes beside it)")
 def r10(ctx):
     T = _TokenRule(ctx)
-    ctx.require(T.recompute, "orm/mapper.py no longer has a function that builds (class, pk, <state>.identity_token)")
-    for nm, (f, idx) in sorted(T.recompute.items()):
+    ctx.require(T.recompute, "orm/mapper.py no longer has a function that builds an identity key (self._identity_class, .., ..) from a state")
+    for nm, (f, idx, good, last) in sorted(T.recompute.items()):
         ctx.functions_analysed.add(f.key)
-        ctx.ok(f"{f.key}:key-recomputed-from-state-token", f"returns (.., .., {f.params[idx + (1 if f.params[0] in ('self', 'cls') else 0)]}.{TOKEN})")
+        p_ = f.params[idx + (1 if f.params[0] in ('self', 'cls') else 0)]
+        ctx.check(good, f"{f.key}:key-recomputed-from-state-token",
+                  f"the identity key re-computed from `{p_}` ends in `{last}` instead of `{p_}.{TOKEN}`: for an object that carries a token the flush compares "
+                  f"(class, pk, {last}) with state.key, takes the difference for a primary-key switch and re-files the object under the other key",
+                  f"returns (.., .., {p_}.{TOKEN})", f.loc)
     n_inst = 0
     for m in ctx.index.all_modules():
         if not m.relpath.startswith("orm/") or m.relpath in NOT_STATE_KEYS or "key" not in m.source:
@@ -1385,7 +1404,7 @@ def r10(ctx):
                     w_after += sync
                     starts, heads = _pass_bounds(g, pm, fn, anchor)
                     ends = list(heads) + [g.exit]
-                    ok_edges = _key_falsy_edges(g, fn, var, g.nodes_for(st))
+                    ok_edges = _key_falsy_edges(g, fn, var, g.nodes_for(st), v)
                     bad = None
                     for N in g.nodes_for(st):
                         if N in w_any:
@@ -1633,10 +1652,12 @@ R.mutant("make-transient-to-detached-key-from-pk-without-token", SESSION,
 R.mutant("recomputed-key-ignores-state-token", "orm/mapper.py",
          sub("                    for prop in self._identity_key_props\n                ]\n            ),\n            state.identity_token,\n        )\n",
              "                    for prop in self._identity_key_props\n                ]\n            ),\n            None,\n        )\n"), "C34-R10")
-R.mutant("key-switch-helper-rekeys-with-key-of-other-state", SESSION,
-         _switch_helper("                    self._switch_identity_key(state, mapper._identity_key_from_state(old_state))\n",
-                        "        self.identity_map.safe_discard(state)\n" + _SW_RECORD + "        state.key = instance_key\n",
-                        sub("                instance_key = mapper._identity_key_from_state(state)\n", "                instance_key = mapper._identity_key_from_state(state)\n                old_state = state\n")), "C34-R10")
+R.mutant("key-switch-helper-given-key-without-token", SESSION,
+         _switch_helper("                    self._switch_identity_key(state, mapper.identity_key_from_primary_key(instance_key[1]))\n",
+                        "        self.identity_map.safe_discard(state)\n" + _SW_RECORD + "        state.key = instance_key\n"), "C34-R10")
+R.mutant("benign-key-switch-helper-given-key-through-alias", SESSION,
+         _switch_helper("                    same_state = state\n                    self._switch_identity_key(state, mapper._identity_key_from_state(same_state))\n",
+                        "        self.identity_map.safe_discard(state)\n" + _SW_RECORD + "        state.key = instance_key\n"), None)
 # benign: the same code re-expressed
 R.mutant("benign-setstate-token-through-key-local", STATE, sub(_SS_TOK, "        restored = self.key\n        if restored:\n            self.identity_token = restored[2]\n"), None)
 R.mutant("benign-setstate-guard-clause-ternary", STATE, sub(_SS_TOK, "        self.identity_token = self.key[2] if self.key is not None else None\n"), None)
